@@ -151,8 +151,9 @@ func newSL(cmp string) slI {
 	switch cmp {
 	case "bytesle":
 		return &slOf[[]byte]{m: skiplist.NewSkipListMap[[]byte, int](leCmp{}),
-			enc: func(r int) []byte { b := make([]byte, 4); binary.LittleEndian.PutUint32(b, uint32(r+1000)); return b },
-			dec: func(b []byte) int { return int(binary.LittleEndian.Uint32(b)) - 1000 }}
+			// offset 250: the ranks -1 .. 8 of the enumerated orders straddle a byte boundary (249 .. 258), where little-endian and lexicographic order differ
+			enc: func(r int) []byte { b := make([]byte, 4); binary.LittleEndian.PutUint32(b, uint32(r+250)); return b },
+			dec: func(b []byte) int { return int(binary.LittleEndian.Uint32(b)) - 250 }}
 	case "intdiff":
 		return &slOf[int]{m: skiplist.NewSkipListMap[int, int](diffCmp{}), enc: func(r int) int { return r }, dec: func(k int) int { return k }}
 	case "string":
